@@ -194,6 +194,13 @@ static int muggle_log_file_time_rot_handler_write(
 	{
 		return -2;
 	}
+	if (ret >= (int)sizeof(buf))
+	{
+		// the formatter returns the length it wanted (snprintf semantics);
+		// only sizeof(buf) - 1 bytes are in buf: write those, still as a line
+		ret = (int)sizeof(buf) - 1;
+		buf[ret - 1] = '\n';
+	}
 
 	muggle_log_file_time_rot_handler_t *handler = (muggle_log_file_time_rot_handler_t*)base_handler;
 
